@@ -32,7 +32,7 @@ SPEC_MODULES = {
     "C11": ["specs.c11_condition"],
     "C12": ["specs.c12_memory"],
     "C13": ["specs.c12_memory"],
-    "C14": ["specs.c14_threads"],
+    "C14": ["specs.c14_threads", "specs.c15_portal"],
     "C15": ["specs.c15_portal"],
     "C16": ["specs.c16_buffered"],
     "C17": ["specs.c17_tls"],
